@@ -78,6 +78,7 @@ def parseOp (t : String) : Option Op :=
   | ["pl"] => some .pl
   | ["cs"] => some .cs
   | ["hd"] => some .hd
+  | ["plc"] => some .plc
   | ["nofile", v] => do guardIn v LIMITS; pure (.nofile (if v == "unlimited" then none else v.toNat?))
   | ["exit", n] => do guardIn n ["0", "3", "7"]; pure (.exit (← n.toNat?))
   | _ => none
@@ -128,13 +129,13 @@ def parseItems : List String → Case → Option Case
         parseItems rest { c with kinds := c.kinds ++ [k] }
       | "P" => do
         let op ← parseOp body
-        if isExit op ∨ op = .yield ∨ op = .pl ∨ op = .cs ∨ op = .hd then none else parseItems rest { c with pro := c.pro ++ [op] }
+        if isExit op ∨ op = .yield ∨ op = .pl ∨ op = .cs ∨ op = .hd ∨ op = .plc then none else parseItems rest { c with pro := c.pro ++ [op] }
       | "M" => do
         let op ← parseOp body
-        if isSilent op ∧ op ≠ .yield ∧ op ≠ .pl ∧ op ≠ .cs ∧ op ≠ .hd then parseItems rest { c with mid := setMid c.mid 0 op } else none
+        if isSilent op ∧ op ≠ .yield ∧ op ≠ .pl ∧ op ≠ .cs ∧ op ≠ .hd ∧ op ≠ .plc then parseItems rest { c with mid := setMid c.mid 0 op } else none
       | "N" => do
         let op ← parseOp body
-        if isSilent op ∧ op ≠ .yield ∧ op ≠ .pl ∧ op ≠ .cs ∧ op ≠ .hd then parseItems rest { c with mid := setMid c.mid 1 op } else none
+        if isSilent op ∧ op ≠ .yield ∧ op ≠ .pl ∧ op ≠ .cs ∧ op ≠ .hd ∧ op ≠ .plc then parseItems rest { c with mid := setMid c.mid 1 op } else none
       | "C" => do parseItems rest { c with child := c.child ++ [← parseOp body] }
       | "A" => do
         -- mutators of the FIRST member of the innermost pipeline (kind `pipeL`): another process, living at the same
@@ -149,7 +150,7 @@ def parseItems : List String → Case → Option Case
         if ok then parseItems rest { c with first := c.first ++ [op] } else none
       | "W" => do
         let op ← parseOp body
-        if isSilent op ∧ op ≠ .bg ∧ op ≠ .pl ∧ op ≠ .cs ∧ op ≠ .hd then parseItems rest { c with during := c.during ++ [op] } else none
+        if isSilent op ∧ op ≠ .bg ∧ op ≠ .pl ∧ op ≠ .cs ∧ op ≠ .hd ∧ op ≠ .plc then parseItems rest { c with during := c.during ++ [op] } else none
       | _ => none
     | _ => none
 
@@ -167,7 +168,7 @@ def parseCase (line : String) : Option Case := do
     X:<pid> fork | umask M | chdir D | open F | dup N MIN [x] | dup2 N M | close N | cloexec N 0|1 |
             sigaction SIG D|I|C | block SIG | unblock SIG | rlimit 4|16|18|unlimited -/
 
-def XDIRS := DIRS ++ ["s", ".", "/dx"]
+def XDIRS := DIRS ++ ["s", ".", "/dx", "..", "/d1/s/..", "../d2", "/.."]
 def XFDS := ["0", "1", "2", "3", "4", "5", "10", "17", "20"]
 def XLIMITS := ["4", "16", "18", "unlimited"]
 
